@@ -6,7 +6,7 @@ import copy
 
 from .. import gen, oracles as O, rig
 from ..view import View
-from . import common
+from . import common, hang
 
 JOBS = {"quick": 4, "thorough": 16}
 CANCELS = ["cancel", "kbd", "sysexit"]
@@ -115,6 +115,8 @@ def work(ctx, tier):
         for e in common.pick_entries(rng, rig.ENTRIES, 2):
             _run(ctx, sc, e, stats, "random")
         ctx.inc("random_scenarios")
+    if ctx.shard == 0:
+        hang.cancel_while_unwinding(ctx, rounds=1 if tier == "quick" else 5)
     common.flush_stats(ctx, stats)
 
 
@@ -128,12 +130,14 @@ def conclude(ctx):
         "stops:thrown": (ctx.cnt["stops:thrown"], 500),
         "distinct (entry, injection kind) cells": (len(ctx.sets["cells"]), 50),
         "attempt_timeout_bases": (ctx.cnt["attempt_timeout_bases"], 20),
+        "cancellations_while_a_timed_out_attempt_unwinds": (ctx.cnt["cancellations_while_a_timed_out_attempt_unwinds"], 6),
     }
     return dict(
         rule=(
             "fault enumeration from clean runs: first-True abort poll index 0..N, AbortRetryError / CancelledError / KeyboardInterrupt / SystemExit raised by the operation at every attempt index "
             "and by the sleeper at every sleep index, and thrown (or close()) at every suspension point of async runs (operation, awaitable before_sleep hooks, awaitable/default sleepers), "
-            "with and without handlers, over all entry points; plus random scenarios for poll placement; distinct_nontrivial = distinct (entry, injection kind) cells"
+            "with and without handlers, over all entry points; plus random scenarios for poll placement; plus (real loop, real attempt_timeout_s) the cancellation of a run arriving while its timed-out "
+            "attempt is still unwinding; distinct_nontrivial = distinct (entry, injection kind) cells"
         ),
         evaluations=ctx.cnt["runs"],
         nontrivial=len(ctx.sets["cells"]),
@@ -145,4 +149,29 @@ def conclude(ctx):
 
 
 def replay(data):
+    if "hang" in data["payload"]:
+        import collections
+
+        class C:
+            cnt = collections.Counter()
+            bad = []
+
+            def inc(self, *a):
+                pass
+
+            def add(self, *a):
+                pass
+
+            def inconclusive_because(self, m):
+                print("  ??", m)
+
+            def viol(self, k, m, pl):
+                self.bad.append(m)
+
+        c = C()
+        hang.cancel_while_unwinding(c)
+        for m in c.bad:
+            print("  !!", m)
+        print("replay:", "violation reproduced" if c.bad else "no violation on this tree")
+        return 1 if c.bad else 0
     return common.replay_trace(data, [O.o_abort])
